@@ -7,8 +7,18 @@ package main
 // mailbox updates (MailboxCreated / MailboxDeleted / RenameMailbox) over generated names (depth <= 6,
 // INBOX in several letter cases, regexp metacharacters, list wildcards, blanks, trailing / doubled /
 // leading delimiters, the empty name, non-ASCII names sent in modified UTF-7). The connector's queue
-// is flushed after every step. After the sequence: LIST "" "*", LSUB "" "*" and generated
-// reference/pattern pairs for LIST and LSUB.
+// is flushed after every step. After EVERY step the full namespace is read back over the wire (LIST "" "*",
+// LSUB "" "*" and STATUS (MESSAGES) of every selectable name of that LIST; marker messages are APPENDed so
+// that a mailbox that moved to another name, or two mailboxes that swapped names, are noticed) and compared
+// with the Lean model's prediction for that step (dialect `namespace-trace`). After the sequence: LIST "" "*",
+// LSUB "" "*" and generated reference/pattern pairs for LIST and LSUB.
+//
+// Half of the sequences (flag -twins) are "sibling hierarchy" sequences: 2-4 sibling names that are related in a
+// way a string comparison can get wrong (same up to ASCII letter case, same up to the case of a non-ASCII
+// letter, one a prefix of the other without delimiter, LIKE / glob / regexp metacharacters next to the names
+// they would match, a leading / trailing blank, INBOX spellings below the first level), each with inferiors
+// of the same relative names, some holding marker messages, some unsubscribed; then RENAME / DELETE /
+// SUBSCRIBE / UNSUBSCRIBE / CREATE of ONE of them (RENAME also onto a sibling spelling of an existing name).
 //
 // Decided in Lean (the driver binary $VERIF_DRIVER):
 //   tie       dialect `namespace-subs` (Model/NamespaceSubs.lean) predicts every tagged result class and the
@@ -20,7 +30,7 @@ package main
 //   oracle c14namespace
 //   delimiter <hex>
 //   sessions <1|2>
-//   S<i> C <name> | S<i> D <name> | S<i> R <old> <new> | S<i> S <name> | S<i> U <name>
+//   S<i> C <name> | S<i> D <name> | S<i> R <old> <new> | S<i> S <name> | S<i> U <name> | S<i> A <name>
 //   K KC <rid> <name> | K KD <rid> | K KN <name> | K KR <name> <new>
 //   Q LIST <ref> <pattern> | Q LSUB <ref> <pattern>
 
@@ -31,6 +41,7 @@ import (
 	"fmt"
 	"os"
 	"path/filepath"
+	"regexp"
 	"sort"
 	"strings"
 
@@ -107,8 +118,16 @@ type nsSeq struct {
 	err      error
 	notes    []string
 	modelOut string
+	snaps    []nsSnap // the full namespace read back after every op
+	twins    bool
 	echoAt   int // index of the op whose refusal was followed by a change when the connector's queue was flushed; -1 = none
 	echoDesc string
+}
+
+// nsSnap: the namespace as the wire shows it after one op
+type nsSnap struct {
+	list, lsub string // listing() format
+	status     string // `hex=<count|x>;…` of every selectable name of list, sorted | `-`
 }
 
 type nsQuery struct {
@@ -124,6 +143,8 @@ type nsRunner struct {
 	s     []*Client
 	delim string
 	seq   *nsSeq
+	vocab *nsVocab // sibling-hierarchy sequence: the names come from this vocabulary
+	nmsg  int
 }
 
 func newNsRunner(delim string, nsess int) (*nsRunner, error) {
@@ -222,6 +243,8 @@ func nsClear(f []string) string {
 		return f[0] + " SUBSCRIBE " + un(f[2])
 	case len(f) == 3 && f[1] == "U":
 		return f[0] + " UNSUBSCRIBE " + un(f[2])
+	case len(f) == 3 && f[1] == "A":
+		return f[0] + " APPEND " + un(f[2]) + " <marker message>"
 	case len(f) == 4 && f[1] == "KC":
 		return "connector MailboxCreated id=" + un(f[2]) + " name=" + un(f[3])
 	case len(f) == 3 && f[1] == "KD":
@@ -266,6 +289,61 @@ func (r *nsRunner) listing(c *Client, cmd string) (out string, status string) {
 		return "-", "ok"
 	}
 	return strings.Join(items, ";"), "ok"
+}
+
+var nsReStatusMessages = regexp.MustCompile(`\(MESSAGES (\d+)\)\s*$`)
+
+// snapshot reads the full namespace back through session c: LIST "" "*", LSUB "" "*" and the message count
+// of every selectable name of that LIST.
+func (r *nsRunner) snapshot(c *Client) nsSnap {
+	var sn nsSnap
+	sn.list, _ = r.listing(c, `LIST "" "*"`)
+	sn.lsub, _ = r.listing(c, `LSUB "" "*"`)
+	sn.status = "-"
+	if sn.list == "-" || sn.list == "panic" {
+		return sn
+	}
+	var items []string
+	for _, it := range strings.Split(sn.list, ";") {
+		kv := strings.SplitN(it, "=", 2)
+		if len(kv) != 2 || strings.Contains("+"+kv[1]+"+", "+noselect+") {
+			continue
+		}
+		name, _ := nsUnhex(kv[0])
+		rep := c.Cmd("STATUS " + nsArg(name) + " (MESSAGES)")
+		cnt := "x"
+		if rep.Status == "OK" {
+			for _, u := range rep.Untagged {
+				if m := nsReStatusMessages.FindStringSubmatch(u); m != nil && strings.HasPrefix(u, "* STATUS ") {
+					cnt = m[1]
+				}
+			}
+		}
+		items = append(items, kv[0]+"="+cnt)
+	}
+	sort.Strings(items)
+	if len(items) > 0 {
+		sn.status = strings.Join(items, ";")
+	}
+	return sn
+}
+
+// nsShowListing renders `hex=x;hex=y` in clear for the descriptions.
+func nsShowListing(out string) string {
+	if out == "-" || out == "panic" || out == "" {
+		return "[" + out + "]"
+	}
+	var items []string
+	for _, it := range strings.Split(out, ";") {
+		kv := strings.SplitN(it, "=", 2)
+		n, _ := nsUnhex(kv[0])
+		if len(kv) == 2 {
+			items = append(items, fmt.Sprintf("%q=%s", n, kv[1]))
+		} else {
+			items = append(items, fmt.Sprintf("%q", n))
+		}
+	}
+	return "[" + strings.Join(items, " ") + "]"
 }
 
 // awRealNoselect maps the attribute rendering to the model's two classes.
@@ -336,6 +414,15 @@ func (r *nsRunner) exec(step string) error {
 		err = cmd("S:"+f[2], "SUBSCRIBE "+nsArg(un(f[2])))
 	case len(f) == 3 && f[1] == "U":
 		err = cmd("U:"+f[2], "UNSUBSCRIBE "+nsArg(un(f[2])))
+	case len(f) == 3 && f[1] == "A":
+		r.nmsg++
+		rep := sess().Append(nsArg(un(f[2])), "", SimpleMessage(fmt.Sprintf("marker-%d", r.nmsg), "marker"))
+		q.ops = append(q.ops, "A:"+f[2])
+		q.results = append(q.results, nsClassify(rep))
+		q.replies = append(q.replies, awCanonTagged(rep))
+		if rep.Err != nil {
+			err = fmt.Errorf("APPEND %s: %v", nsArg(un(f[2])), rep.Err)
+		}
 	case len(f) == 4 && f[1] == "KC":
 		conn("KC:"+f[2]+":"+f[3], func() {
 			_ = r.sys.Conn.MailboxCreated(imap.Mailbox{ID: imap.MailboxID(un(f[2])), Name: strings.Split(un(f[3]), r.delim), Flags: fl, PermanentFlags: fl, Attributes: imap.NewFlagSet()})
@@ -392,6 +479,8 @@ func (r *nsRunner) exec(step string) error {
 	for _, p := range r.sys.Panics.Take() {
 		q.notes = append(q.notes, fmt.Sprintf("server goroutine panicked at step %q: %s", step, p))
 	}
+	// the full namespace after this op, seen by the sessions in turn
+	q.snaps = append(q.snaps, r.snapshot(r.s[len(q.ops)%len(r.s)]))
 	return nil
 }
 
@@ -464,6 +553,161 @@ func nsGenName(g *Rng, delim string, plain bool) string {
 	return name
 }
 
+// ---- sibling hierarchies -------------------------------------------------------------------
+
+// nsTwinFamilies: hierarchy segments that a wrong string comparison confuses with one another.
+var nsTwinFamilies = [][]string{
+	{"work", "Work", "WORK", "wOrk"},                       // equal up to ASCII letter case
+	{"Lists", "lists", "LISTS", "work", "Work"},            // two such pairs
+	{"work", "workshop", "work2", "wor", "Work"},           // one a prefix of the other, no delimiter between
+	{"a%c", "abc", "a%", "abbc", "ac", `a\%c`},             // LIKE `%` next to what it would match
+	{"a_c", "abc", "a_", "ab", "A_C", `a\_c`},              // LIKE `_`
+	{"a*c", "abc", "a*", "abbc", "ac"},                     // glob / list wildcard `*`
+	{"a?c", "abc", "a[bc]c", "a[b]c", "a[!b]c", "a]c"},     // glob `?` `[…]`
+	{`a\c`, "ac", `a\\c`, `a\`, "a"},                       // the usual escape character
+	{"a.c", "abc", "a+c", "aac", "a|c", "(a)c", "a$", "^a"}, // regular expression metacharacters
+	{"work", "work ", " work", "wo rk", "work  "},          // leading / trailing / inner blank
+	{"é", "É", "e", "café", "cafÉ", "CAFÉ"},                // equal up to the case of a non-ASCII letter
+	{"straße", "STRASSE", "strasse", "ı", "i", "I", "İ"},    // case mappings that change length / are locale dependent
+	{"inbox", "INBOX", "Inbox", "inbox2", "INBO"},          // INBOX spellings (special at the first level only)
+	{"Recovered Messages", "recovered messages", "Recovered", "Recovered Messages2"},
+}
+
+type nsVocab struct {
+	twins  []string // 2-4 members of one family
+	kids   []string // relative names used below every twin
+	prefix string   // "" or `<segment><delimiter>`: the twins live below it
+	fresh  []string
+}
+
+func nsNewVocab(g *Rng, delim string) *nsVocab {
+	fam := Pick(g, nsTwinFamilies)
+	idx := make([]int, len(fam))
+	for i := range idx {
+		idx[i] = i
+	}
+	for i := len(idx) - 1; i > 0; i-- {
+		j := g.Intn(i + 1)
+		idx[i], idx[j] = idx[j], idx[i]
+	}
+	n := g.Range(2, 4)
+	if n > len(fam) {
+		n = len(fam)
+	}
+	v := &nsVocab{fresh: []string{"archive", "z", "Archive"}}
+	for _, i := range idx[:n] {
+		v.twins = append(v.twins, fam[i])
+	}
+	v.kids = []string{"reports", Pick(g, []string{"x", "Reports", "todo", "y"})}
+	if g.Chance(1, 3) {
+		v.kids = append(v.kids, Pick(g, fam))
+	}
+	switch k := g.Intn(10); {
+	case k < 5:
+	case k < 8:
+		v.prefix = Pick(g, []string{"a", "Lists", "p"}) + delim
+	default:
+		v.prefix = Pick(g, fam) + delim
+	}
+	return v
+}
+
+// name: a twin, or a name of depth 2-3 below one
+func (v *nsVocab) name(g *Rng, d string) string {
+	n := v.prefix + Pick(g, v.twins)
+	switch k := g.Intn(10); {
+	case k < 4:
+	case k < 8:
+		n += d + Pick(g, v.kids)
+	default:
+		n += d + Pick(g, v.kids) + d + Pick(g, append(append([]string{}, v.kids...), v.twins...))
+	}
+	return n
+}
+
+// nsFlipCase changes the case of one ASCII letter (of all letters when all is set).
+func nsFlipCase(g *Rng, s string, all bool) string {
+	b := []byte(s)
+	var at []int
+	for i, c := range b {
+		if (c >= 'a' && c <= 'z') || (c >= 'A' && c <= 'Z') {
+			at = append(at, i)
+		}
+	}
+	if len(at) == 0 {
+		return s
+	}
+	if !all {
+		at = []int{Pick(g, at)}
+	}
+	for _, i := range at {
+		b[i] ^= 0x20
+	}
+	return string(b)
+}
+
+// sibling: an existing name with one hierarchy level replaced by a sibling spelling
+func (v *nsVocab) sibling(g *Rng, d string, existing string) string {
+	parts := strings.Split(existing, d)
+	i := g.Intn(len(parts))
+	switch k := g.Intn(4); {
+	case k < 2:
+		parts[i] = Pick(g, v.twins)
+	case k < 3:
+		parts[i] = nsFlipCase(g, parts[i], false)
+	default:
+		parts[i] = nsFlipCase(g, parts[i], true)
+	}
+	return strings.Join(parts, d)
+}
+
+// target: a new name for RENAME / CREATE
+func (v *nsVocab) target(g *Rng, d string, existing []string) string {
+	switch k := g.Intn(10); {
+	case k < 3:
+		n := v.prefix + Pick(g, v.fresh)
+		if g.Chance(1, 4) {
+			n += d + Pick(g, v.kids)
+		}
+		return n
+	case k < 6 && len(existing) > 0:
+		return v.sibling(g, d, Pick(g, existing))
+	case k < 8 && len(existing) > 0:
+		return Pick(g, existing) + d + Pick(g, append(append([]string{}, v.kids...), v.twins...))
+	}
+	return v.name(g, d)
+}
+
+// prelude: the sibling hierarchies, marker messages (a different number per twin), some unsubscribed
+func (v *nsVocab) prelude(g *Rng, d string, nsess int) []string {
+	var steps []string
+	s := func() string { return fmt.Sprintf("S%d", g.Intn(nsess)) }
+	for i, t := range v.twins {
+		top := v.prefix + t
+		first := top
+		switch k := g.Intn(8); {
+		case k < 1: // no inferiors
+			steps = append(steps, fmt.Sprintf("%s C %s", s(), nsHex(top)))
+		case k < 5: // CREATE of the inferior makes the twin
+			first = top + d + v.kids[0]
+			steps = append(steps, fmt.Sprintf("%s C %s", s(), nsHex(first)))
+			if g.Bool() {
+				steps = append(steps, fmt.Sprintf("%s C %s", s(), nsHex(top+d+v.kids[1])))
+			}
+		default:
+			first = top + d + v.kids[0] + d + v.kids[1]
+			steps = append(steps, fmt.Sprintf("%s C %s", s(), nsHex(top)), fmt.Sprintf("%s C %s", s(), nsHex(first)))
+		}
+		for k := 0; k <= i && k < 3; k++ {
+			steps = append(steps, fmt.Sprintf("%s A %s", s(), nsHex(first)))
+		}
+		if g.Chance(1, 3) {
+			steps = append(steps, fmt.Sprintf("%s U %s", s(), nsHex(Pick(g, []string{top, first}))))
+		}
+	}
+	return steps
+}
+
 func nsStartsLikeInbox(name, delim string) bool {
 	first := name
 	if i := strings.Index(name, delim); i >= 0 {
@@ -479,44 +723,78 @@ func (r *nsRunner) genStep(g *Rng, kids *[]string) string {
 		existing = append(existing, n)
 	}
 	sort.Strings(existing)
+	v := r.vocab
+	genName := func(plain bool) string {
+		if v != nil && !g.Chance(1, 12) {
+			return v.name(g, r.delim)
+		}
+		return nsGenName(g, r.delim, plain)
+	}
+	newName := func() string {
+		if v != nil && !g.Chance(1, 12) {
+			return v.target(g, r.delim, existing)
+		}
+		nw := nsGenName(g, r.delim, false)
+		if g.Chance(1, 6) && len(existing) > 0 { // below an existing mailbox
+			nw = Pick(g, existing) + r.delim + Pick(g, nsSegments)
+		}
+		return nw
+	}
 	pickName := func(pExisting int) string {
 		if len(existing) > 0 && g.Intn(100) < pExisting {
 			n := Pick(g, existing)
 			if g.Chance(1, 8) { // another spelling of an existing name
-				n = strings.ToLower(n)
+				switch g.Intn(4) {
+				case 0:
+					n = strings.ToLower(n)
+				case 1:
+					n = strings.ToUpper(n)
+				case 2:
+					n = nsFlipCase(g, n, false)
+				default:
+					if v != nil {
+						n = v.sibling(g, r.delim, n)
+					} else {
+						n = strings.ToLower(n)
+					}
+				}
 			}
 			return n
 		}
-		return nsGenName(g, r.delim, false)
+		return genName(false)
 	}
 	s := fmt.Sprintf("S%d", g.Intn(len(r.s)))
+	// op mix: the sibling sequences rename / delete more and create less (their hierarchies exist already)
+	cC, cD, cR, cS, cU, cA := 28, 40, 59, 67, 79, 82
+	if v != nil {
+		cC, cD, cR, cS, cU, cA = 14, 28, 60, 68, 78, 82
+	}
 	for {
 		switch k := g.Intn(100); {
-		case k < 30:
-			n := nsGenName(g, r.delim, false)
-			if g.Chance(1, 6) && len(existing) > 0 { // below an existing mailbox
-				n = Pick(g, existing) + r.delim + Pick(g, nsSegments)
-			}
-			return fmt.Sprintf("%s C %s", s, nsHex(n))
-		case k < 42:
+		case k < cC:
+			return fmt.Sprintf("%s C %s", s, nsHex(newName()))
+		case k < cD:
 			return fmt.Sprintf("%s D %s", s, nsHex(pickName(85)))
-		case k < 62:
-			nw := nsGenName(g, r.delim, false)
-			if g.Chance(1, 6) && len(existing) > 0 {
-				nw = Pick(g, existing) + r.delim + Pick(g, nsSegments)
-			}
-			return fmt.Sprintf("%s R %s %s", s, nsHex(pickName(85)), nsHex(nw))
-		case k < 70:
+		case k < cR:
+			return fmt.Sprintf("%s R %s %s", s, nsHex(pickName(85)), nsHex(newName()))
+		case k < cS:
 			return fmt.Sprintf("%s S %s", s, nsHex(pickName(85)))
-		case k < 82:
+		case k < cU:
 			// also names that were deleted while subscribed
 			if g.Chance(1, 3) {
-				return fmt.Sprintf("%s U %s", s, nsHex(nsGenName(g, r.delim, true)))
+				return fmt.Sprintf("%s U %s", s, nsHex(genName(true)))
 			}
 			return fmt.Sprintf("%s U %s", s, nsHex(pickName(90)))
+		case k < cA:
+			// a marker message (never into the recovery mailbox)
+			n := pickName(92)
+			if strings.HasPrefix(strings.ToLower(n), "recovered messages") {
+				continue
+			}
+			return fmt.Sprintf("%s A %s", s, nsHex(n))
 		case k < 89:
 			// connector: create (restricted: canonical names, see the report)
-			n := nsGenName(g, r.delim, g.Chance(1, 2))
+			n := genName(g.Chance(1, 2))
 			if nsStartsLikeInbox(n, r.delim) || strings.HasPrefix(strings.ToLower(n), "recovered messages") {
 				continue
 			}
@@ -546,7 +824,10 @@ func (r *nsRunner) genStep(g *Rng, kids *[]string) string {
 					cand = append(cand, n)
 				}
 			}
-			nw := nsGenName(g, r.delim, g.Chance(1, 2))
+			nw := genName(g.Chance(1, 2))
+			if v != nil && g.Bool() {
+				nw = v.target(g, r.delim, cand)
+			}
 			if len(cand) == 0 || nsStartsLikeInbox(nw, r.delim) || strings.HasPrefix(strings.ToLower(nw), "recovered messages") {
 				continue
 			}
@@ -565,6 +846,13 @@ func (r *nsRunner) genQuery(g *Rng) string {
 	}
 	sort.Strings(existing)
 	d := r.delim
+	nsSegments := nsSegments
+	if r.vocab != nil && !g.Chance(1, 4) { // patterns over the sibling spellings
+		nsSegments = append(append(append([]string{}, r.vocab.twins...), r.vocab.kids...), strings.TrimSuffix(r.vocab.prefix, d))
+		if r.vocab.prefix == "" {
+			nsSegments = nsSegments[:len(nsSegments)-1]
+		}
+	}
 	ref := ""
 	switch k := g.Intn(10); {
 	case k < 5:
@@ -592,6 +880,12 @@ func (r *nsRunner) genQuery(g *Rng) string {
 		pat = "%"
 	case k < 6 && len(existing) > 0:
 		n := Pick(g, existing)
+		if i := strings.LastIndex(n, d); i > 0 && g.Chance(1, 3) { // a superior level by its exact name (maybe a pure parent)
+			n = n[:i]
+			if j := strings.LastIndex(n, d); j > 0 && g.Chance(1, 3) {
+				n = n[:j]
+			}
+		}
 		pat = strings.TrimPrefix(n, ref)
 		if g.Bool() && len(pat) > 0 {
 			i := g.Intn(len([]rune(pat)))
@@ -617,13 +911,14 @@ func (r *nsRunner) genQuery(g *Rng) string {
 	return fmt.Sprintf("Q %s %s %s", verb, nsHex(ref), nsHex(pat))
 }
 
-func runNsSeq(g *Rng, delim string, nsess, nsteps, nqueries int, replay []string) *nsSeq {
+func runNsSeq(g *Rng, delim string, nsess, nsteps, nqueries int, replay []string, twins bool) *nsSeq {
 	r, err := newNsRunner(delim, nsess)
 	if err != nil {
 		return &nsSeq{delim: delim, nsess: nsess, err: err, echoAt: -1}
 	}
 	defer r.close()
 	q := r.seq
+	q.twins = twins
 	if replay != nil {
 		var ops, queries []string
 		for _, s := range replay {
@@ -647,6 +942,14 @@ func runNsSeq(g *Rng, delim string, nsess, nsteps, nqueries int, replay []string
 		return q
 	}
 	var kids []string
+	if twins {
+		r.vocab = nsNewVocab(g, delim)
+		for _, st := range r.vocab.prelude(g, delim, nsess) {
+			if q.err = r.exec(st); q.err != nil {
+				return q
+			}
+		}
+	}
 	for k := 0; k < nsteps; k++ {
 		if q.err = r.exec(r.genStep(g, &kids)); q.err != nil {
 			return q
@@ -692,10 +995,19 @@ func nsEvaluate(seqs []*nsSeq, stats map[string]int) ([][]nsFinding, error) {
 	if len(lines) == 0 {
 		return out, nil
 	}
+	for _, q := range seqs {
+		ops := "-"
+		if len(q.ops) > 0 {
+			ops = strings.Join(q.ops, ";")
+		}
+		lines = append(lines, fmt.Sprintf("namespace-trace %s %s", nsHex(q.delim), ops))
+	}
 	ans, err := leanJudge(lines)
 	if err != nil || len(ans) != len(lines) {
 		return nil, fmt.Errorf("model driver: %v (%d answers for %d lines)", err, len(ans), len(lines))
 	}
+	trace := ans[len(seqs):]
+	ans = ans[:len(seqs)]
 	var jl []string
 	type ref struct{ seq, query int }
 	var refs []ref
@@ -727,6 +1039,49 @@ func nsEvaluate(seqs []*nsSeq, stats map[string]int) ([][]nsFinding, error) {
 		if q.echoAt >= 0 {
 			stats["sequences.echo-after-refusal"]++
 			add("connector-echo-after-refusal", q.echoDesc+" cause=connector-echo-after-refusal", -1)
+		}
+		// tie, step by step: the reply class of every op (up to and including a cut) and the full namespace
+		// after every op (before a cut): LIST "" "*", LSUB "" "*", STATUS (MESSAGES) of every selectable name
+		if tr := strings.Fields(trace[i]); len(tr) == len(q.ops) && len(q.snaps) == len(q.ops) && !strings.HasPrefix(trace[i], "bad-op") {
+			for k := range q.ops {
+				if cut >= 0 && k > cut {
+					break
+				}
+				w := strings.Split(tr[k], "!")
+				if len(w) != 4 {
+					break
+				}
+				m := w[0]
+				if m == "no:dbunique" {
+					m = "no:sqlerror"
+				}
+				after := fmt.Sprintf("op %d (%s)", k, nsClear(strings.Fields(q.steps[k])))
+				if m != q.results[k] {
+					if cut >= 0 { // without a cut the comparison below reports it
+						add("model-mismatch", fmt.Sprintf("tie: %s answered %s (%s), the Lean model of the code predicts %s cause=model-mismatch", after, q.results[k], q.replies[k], w[0]), -1)
+					}
+					break
+				}
+				if cut >= 0 && k == cut {
+					break
+				}
+				sn := q.snaps[k]
+				if got := awRealNoselect(sn.list); got != w[1] {
+					add("model-mismatch-list", fmt.Sprintf("tie: after %s LIST \"\" \"*\" = %s, the Lean model of the code predicts %s cause=model-mismatch-list", after, nsShowListing(got), nsShowListing(w[1])), -1)
+					break
+				}
+				if got := awRealNoselect(sn.lsub); got != w[2] {
+					add("model-mismatch-lsub", fmt.Sprintf("tie: after %s LSUB \"\" \"*\" = %s, the Lean model of the code predicts %s cause=model-mismatch-lsub", after, nsShowListing(got), nsShowListing(w[2])), -1)
+					break
+				}
+				if sn.status != w[3] {
+					add("model-mismatch-status", fmt.Sprintf("tie: after %s STATUS (MESSAGES) of the listed mailboxes = %s, the Lean model of the code predicts %s cause=model-mismatch-status", after, nsShowListing(sn.status), nsShowListing(w[3])), -1)
+					break
+				}
+				stats["tie.namespace-after-op-agrees"]++
+			}
+		} else if len(q.ops) > 0 && q.err == nil {
+			add("harness-observation", fmt.Sprintf("model driver gave %d trace words for %d ops (%d snapshots): %.80s cause=harness-observation", len(tr), len(q.ops), len(q.snaps), trace[i]), -1)
 		}
 		if cut >= 0 {
 			stats["sequences.cut-after-database-error"]++
@@ -875,6 +1230,7 @@ func runNamespaceOracle(args []string) int {
 	nsteps := fs.Int("steps", 10, "steps per sequence")
 	nq := fs.Int("queries", 6, "LIST/LSUB queries per sequence")
 	shrinkBudget := fs.Int("shrink", 25, "re-runs per reported violation")
+	twinsPct := fs.Int("twins", 50, "0 = no sibling-hierarchy sequences, 100 = only such, else every second one")
 	_ = fs.Parse(args)
 	res := &OracleResult{Stats: map[string]int{}}
 	perCause := map[string]int{}
@@ -915,7 +1271,7 @@ func runNamespaceOracle(args []string) int {
 		return st
 	}
 	hasCause := func(steps []string, q *nsSeq, cause string) (*nsSeq, *nsFinding) {
-		q2 := runNsSeq(nil, q.delim, q.nsess, 0, 0, steps)
+		q2 := runNsSeq(nil, q.delim, q.nsess, 0, 0, steps, false)
 		fs, err := nsEvaluate([]*nsSeq{q2}, map[string]int{})
 		if err != nil {
 			return nil, nil
@@ -987,7 +1343,7 @@ func runNamespaceOracle(args []string) int {
 				steps = append(steps, l)
 			}
 		}
-		q := runNsSeq(nil, delim, nsess, 0, 0, steps)
+		q := runNsSeq(nil, delim, nsess, 0, 0, steps, false)
 		res.Evaluations = len(q.ops) + len(q.queries) + 2
 		res.DistinctNontrivial = res.Evaluations
 		findings, err := nsEvaluate([]*nsSeq{q}, res.Stats)
@@ -1030,7 +1386,7 @@ func runNamespaceOracle(args []string) int {
 				}
 			}
 			res.Stats["corpus"]++
-			corpus = append(corpus, runNsSeq(nil, delim, nsess, 0, 0, steps))
+			corpus = append(corpus, runNsSeq(nil, delim, nsess, 0, 0, steps, false))
 		}
 		if len(corpus) > 0 {
 			findings, err := nsEvaluate(corpus, res.Stats)
@@ -1051,9 +1407,14 @@ func runNamespaceOracle(args []string) int {
 		sg := g.Fork()
 		delim := delims[k%len(delims)]
 		nsess := 1 + sg.Intn(2)
-		q := runNsSeq(sg, delim, nsess, sg.Range(*nsteps/2, *nsteps+*nsteps/2), *nq, nil)
+		// the delimiter changes with k, the kind of sequence with k/len(delims): every delimiter gets both kinds
+		twins := *twinsPct >= 100 || (*twinsPct > 0 && (k/len(delims))%2 == 0)
+		q := runNsSeq(sg, delim, nsess, sg.Range(*nsteps/2, *nsteps+*nsteps/2), *nq, nil, twins)
 		seqs = append(seqs, q)
 		res.Stats["sequences"]++
+		if twins {
+			res.Stats["sequences.sibling-hierarchies"]++
+		}
 		res.Stats["delimiter."+nsHex(delim)]++
 		res.Stats[fmt.Sprintf("sessions.%d", nsess)]++
 		for i, op := range q.ops {
